@@ -139,6 +139,7 @@ def scan():
             if dn.split(".")[-1] in ("property", "cached_property") or dn.endswith(".setter") or dn.endswith(".getter"):
                 props.setdefault(node.name, set()).add(key)
 
+    module_lambdas = set()
     for mod, tree in mods.items():
         imports[mod], moddefs[mod] = {}, {}
         for n in ast.walk(tree):
@@ -174,7 +175,24 @@ def scan():
                 for b in n.body:
                     if isinstance(b, (ast.FunctionDef, ast.AsyncFunctionDef)):
                         reg(f"{mod}.{n.name}.{b.name}", b, mod, n.name)
-        # nested defs inside functions are analysed as part of their enclosing function (ast.walk descends into them)
+        # nested defs inside functions are analysed as part of their enclosing function (ast.walk descends into them);
+        # lambdas written OUTSIDE any def (module level, class bodies, default tables) are collected into one anonymous
+        # function per module, reachable from every call of a local variable (they can only be called through a value)
+        in_def = set()
+        for n in ast.walk(tree):
+            if isinstance(n, (ast.FunctionDef, ast.AsyncFunctionDef)):
+                for m in ast.walk(n):
+                    if isinstance(m, ast.Lambda):
+                        in_def.add(id(m))
+        lambdas = [n for n in ast.walk(tree) if isinstance(n, ast.Lambda) and id(n) not in in_def]
+        if lambdas:
+            holder = ast.FunctionDef(name="<lambda>", args=ast.arguments(posonlyargs=[], args=[], kwonlyargs=[], kw_defaults=[], defaults=[]),
+                                     body=[ast.Expr(value=l.body) for l in lambdas], decorator_list=[], lineno=lambdas[0].lineno, col_offset=0)
+            # the lambdas' own parameters are local names
+            holder.args.args = [ast.arg(arg=a.arg) for l in lambdas for a in l.args.args + l.args.kwonlyargs + l.args.posonlyargs]
+            ast.fix_missing_locations(holder)
+            reg(f"{mod}.<lambda>", holder, mod, None)
+            module_lambdas.add(f"{mod}.<lambda>")
 
     def resolve_skops(target_mod, name, seen=()):
         """a name imported from a skops.io module -> ('func', key) | ('class', 'mod.Cls') | ('mod', modkey) | None"""
@@ -256,6 +274,7 @@ def scan():
     if "_utils._get_state" not in funcs:
         raise Abort("_utils._get_state (the singledispatch function) not found")
     escaping -= dispatch_funcs
+    escaping |= module_lambdas
 
     def bytesio_locals(fnode):
         """names of local variables that are bound ONLY to io.BytesIO() in this function"""
